@@ -59,6 +59,20 @@ func init() {
 		},
 		nd + "SymbolicRand": func(fr *frame, a []value) value { fr.p.symRand = true; return nil },
 		nd + "MapRaces":  func(fr *frame, a []value) value { fr.p.sched.mapRaces = true; return nil },
+		nd + "Races": func(fr *frame, a []value) value {
+			var ignore []string
+			for _, x := range a[0].([]value) {
+				ignore = append(ignore, strArg(x))
+			}
+			fr.p.sched.raceInit(ignore)
+			return nil
+		},
+		nd + "RacesSeen": func(fr *frame, a []value) value {
+			if fr.p.sched.race == nil {
+				return 0
+			}
+			return fr.p.sched.race.count
+		},
 		nd + "MapOrder":  func(fr *frame, a []value) value { fr.p.mapOrder = true; return nil },
 		nd + "Quiesce":   func(fr *frame, a []value) value { fr.quiesce(); return nil },
 		nd + "SetNumCPU": func(fr *frame, a []value) value { fr.p.numCPU = int(asInt64(a[0])); return nil },
